@@ -146,61 +146,66 @@ def run(ctx, rep):
     okret = all(rules.call_dominates(f, sig, bi) for bi, si, dst, rv, s in agg_sites(f, "core::result::Result", "Ok") if dst["l"] == 0)
     rep.ob("C19.signal", "call_lib: the request is signalled on every Ok path", "ok" if ok and okret else "violated", "", f.span, fn=f.path)
 
-    # ---- (b) process_jump_request, Library arm ------------------------------
-    p = need(F, "bytecode::interpreter::Program::process_jump_request")
-    lib_calls = p.calls_to("bytecode::interpreter::Program::process_library_jump_request")
-    rep.floor("C19.process_library_jump_request call sites", len(lib_calls), 1)
-    for c in lib_calls:
-        tp = [rules.trace_paths(p, op_local(a), transparent=PASS) for a in c.args]
-        want2 = {(("arg", 2), ("arguments",))}
-        ok2 = tp[2] == want2
-        rep.ob("C19.args-pass-through", "process_jump_request: third argument <- &request.arguments",
-               "ok" if ok2 else "violated", "derives from %s" % describe(p, tp[2]), c.span, fn=p.path)
-        ok0 = tp[0] == {(("arg", 2), ("destination", "@Library", "lib_name"))}
-        ok1 = tp[1] == {(("arg", 2), ("destination", "@Library", "func_name"))}
-        rep.ob("C19.destination", "process_jump_request: lib/func names <- request.destination.Library",
-               "ok" if ok0 and ok1 else "violated", "lib<-%s func<-%s" % (describe(p, tp[0]), describe(p, tp[1])), c.span, fn=p.path)
-        # result returned (through context) unchanged
-        o = rules.origins(p, 0, transparent=PASS | {"anyhow::Context::context", "anyhow::Context::with_context"})
-        rep.ob("C19.result-pass-through", "process_jump_request: Library arm returns the call's result",
-               "ok" if ("call", c.bb) in o else "violated", "", c.span, fn=p.path)
-    # who may call
-    callers = F.callers_of("bytecode::interpreter::Program::process_library_jump_request")
-    okc = {x[0].path for x in callers} == {p.path}
-    rep.ob("C19.callers", "process_library_jump_request is called only from process_jump_request", "ok" if okc else "violated",
-           "callers=%s" % sorted({x[0].path for x in callers}), p.span, fn=p.path)
-
-    # ---- (c) process_library_jump_request -------------------------------------
+    # ---- (c) process_library_jump_request: roles of its parameters --------------------------------------------
     q = need(F, "bytecode::interpreter::Program::process_library_jump_request")
+    CTXT = {"anyhow::Context::context", "anyhow::Context::with_context", rules.TRY_BRANCH}
+    KEYPASS = PASS | {"alloc::string::ToString::to_string", "alloc::borrow::ToOwned::to_owned", "alloc::string::String::as_str",
+                      "core::convert::Into::into", "core::convert::From::from"}
+    ENTRY = {"std::collections::hash::map::OccupiedEntry::into_mut", "std::collections::hash::map::VacantEntry::insert",
+             "std::collections::hash::map::Entry::or_insert", "std::collections::hash::map::Entry::or_insert_with",
+             "core::option::Option::unwrap", "core::option::Option::expect"}
+    inputs = q.d.get("inputs") or []
+    args_idx = [i + 1 for i, ty in enumerate(inputs) if "[bytecode::variables::primitive::Primitive]" in ty]
+    if len(args_idx) != 1:
+        raise AnchorMissing("the `args: &[Primitive]` parameter of process_library_jump_request")
+    args_idx = args_idx[0]
+    news = q.calls_to("libloading::safe::Library::new")
+    gets = q.calls_to("libloading::safe::Library::get")
+    rep.floor("C19.Library::new/get calls", len(news) + len(gets), 2)
+    lib_roots = set()
+    for c in news:
+        lib_roots |= {o for (o, fs) in rules.trace_paths(q, op_local(c.args[0]), transparent=KEYPASS)}
+    func_roots = set()
+    for c in gets:
+        func_roots |= {o for (o, fs) in rules.trace_paths(q, op_local(c.args[1]), transparent=KEYPASS | {"alloc::string::String::as_bytes", "core::str::<impl str>::as_bytes"})}
+    lib_idx = [o[1] for o in lib_roots if o[0] == "arg"]
+    func_idx = [o[1] for o in func_roots if o[0] == "arg"]
+    ok_roles = len(lib_roots) == 1 and len(lib_idx) == 1 and len(func_roots) == 1 and len(func_idx) == 1 and lib_idx != func_idx
+    rep.ob("C19.symbol", "the library is opened by the unmodified library-name parameter and the symbol looked up by the unmodified function-name parameter",
+           "ok" if ok_roles else "violated", "Library::new argument derives from %s; Library::get symbol from %s" % (describe(q, lib_roots), describe(q, func_roots)),
+           q.span, fn=q.path)
+    # the handle used for the lookup: freshly opened, or taken from a table keyed by the same unmodified name
+    for g in gets:
+        ho = rules.origin_calls(q, op_local(g.args[0]), transparent=PASS | CTXT | ENTRY)
+        bad = []
+        for h in ho:
+            if h.matches("libloading::safe::Library::new"):
+                continue
+            if h.matches(("std::collections::hash::map::HashMap::entry", "std::collections::hash::map::HashMap::get", "std::collections::hash::map::HashMap::get_mut")):
+                kt = rules.trace_paths(q, op_local(h.args[1]), transparent=KEYPASS)
+                kroots = {o for (o, fs) in kt}
+                if kroots != {("arg", lib_idx[0])} if lib_idx else True:
+                    bad.append("handle table keyed by %s, not by the library name itself" % describe(q, kroots))
+                continue
+            bad.append("handle comes from %s" % mir.short(h.callee()))
+        rep.ob("C19.symbol", "the symbol is looked up in the library named by the request", "violated" if bad or not ho else "ok",
+               "; ".join(bad), g.span, fn=q.path, key="C19.symbol|Program::process_library_jump_request|library-identity")
     ptr_calls = [c for c in q.calls() if c.is_ptr]
     rep.floor("C19.foreign fn-pointer calls", len(ptr_calls), 1)
-    CTXT = {"anyhow::Context::context", "anyhow::Context::with_context", rules.TRY_BRANCH}
     for c in ptr_calls:
         tp = rules.trace_paths(q, op_local(c.args[0]), transparent=PASS) if c.args else set()
         rep.ob("C19.args-pass-through", "process_library_jump_request: foreign fn receives the `args` parameter",
-               "ok" if len(c.args) == 1 and tp == {(("arg", 3), ())} else "violated", "argument derives from %s" % describe(q, tp), c.span, fn=q.path)
-        # the function pointer is the looked-up symbol
+               "ok" if len(c.args) == 1 and tp == {(("arg", args_idx), ())} else "violated", "argument derives from %s" % describe(q, tp), c.span, fn=q.path)
         fo = rules.origin_calls(q, op_local(c.t["func"]["ptr"]), transparent=PASS | CTXT)
         oksym = len(fo) == 1 and fo[0].matches("libloading::safe::Library::get")
-        detail = [mir.short(x.callee()) for x in fo]
-        if oksym:
-            g = fo[0]
-            lo = rules.origin_calls(q, op_local(g.args[0]), transparent=PASS | CTXT)
-            so = rules.trace_paths(q, op_local(g.args[1]), transparent=PASS | {"alloc::string::String::as_bytes", "core::str::<impl str>::as_bytes"})
-            oklib = len(lo) == 1 and lo[0].matches("libloading::safe::Library::new") and \
-                rules.trace_paths(q, op_local(lo[0].args[0]), transparent=PASS) == {(("arg", 1), ())}
-            oksymname = so == {(("arg", 2), ())}
-            oksym = oklib and oksymname
-            detail = "library<-%s symbol name<-%s" % ([mir.short(x.callee()) for x in lo], describe(q, so))
-        rep.ob("C19.symbol", "foreign fn is Library::new(lib_name).get(func_name)", "ok" if oksym else "violated", str(detail), c.span, fn=q.path)
-        # result returned verbatim inside Ok
+        rep.ob("C19.symbol", "the function called is the symbol Library::get returned", "ok" if oksym else "violated",
+               str([mir.short(x.callee()) for x in fo]), c.span, fn=q.path, key="C19.symbol|Program::process_library_jump_request|fn-is-symbol")
         oks = [x for x in agg_sites(q, "core::result::Result", "Ok") if x[2]["l"] == 0]
         good = bool(oks) and all(rules.origins(q, op_local(x[3]["ops"][0]), transparent=set()) == {("call", c.bb)} for x in oks)
         rep.ob("C19.result-pass-through", "process_library_jump_request returns Ok(<foreign result>) verbatim",
                "ok" if good else "violated", "", c.span, fn=q.path)
     for pat in ("libloading::safe::Library::new", "libloading::safe::Library::get"):
         for c in q.calls_to(pat):
-            # result must reach a `?` (through context/with_context) whose Break edge returns
             der = q.derived([c.dst["l"]], through_call=lambda cc, idx: True if cc.matches(("anyhow::Context::context", "anyhow::Context::with_context")) else None)
             tries = [t for t in q.calls_to(rules.TRY_BRANCH) if op_local(t.args[0]) in der]
             ok = False
@@ -208,17 +213,33 @@ def run(ctx, rep):
                 sw = rules.find_discr_switch(q, tries[0].target, tries[0].dst["l"])
                 if sw is not None:
                     brk = dict(q.term(sw)["targets"]).get("1")
-                    # the Break edge must return without calling the foreign function
                     bad = rules.blocks_calling(q, lambda cc: cc.is_ptr, [brk])
                     fr = [cc for cc in q.calls_to(rules.FROM_RESIDUAL) if cc.bb in q.reachable(brk) and cc.dst["l"] == 0]
                     ok = not bad and bool(fr)
-                    # and the ptr call is only reachable through the Continue edge
-                    cont = dict(q.term(sw)["targets"]).get("0")
-                    for pc in ptr_calls:
-                        if not rules.edge_dominated(q, pc.bb, {(sw, cont)}):
-                            ok = False
-            rep.ob("C19.error-discipline", "%s failure propagates as Err before the foreign call" % mir.short(pat),
+            rep.ob("C19.error-discipline", "%s failure propagates as Err and the foreign function is not called" % mir.short(pat),
                    "ok" if ok else "violated", "", c.span, fn=q.path)
+
+    # ---- (b) process_jump_request, Library arm ------------------------------------------------------------------
+    p = need(F, "bytecode::interpreter::Program::process_jump_request")
+    lib_calls = p.calls_to("bytecode::interpreter::Program::process_library_jump_request")
+    rep.floor("C19.process_library_jump_request call sites", len(lib_calls), 1)
+    for c in lib_calls:
+        tp = [rules.trace_paths(p, op_local(a), transparent=PASS) if op_local(a) is not None else set() for a in c.args]
+        ok2 = tp[args_idx - 1] == {(("arg", 2), ("arguments",))}
+        rep.ob("C19.args-pass-through", "process_jump_request: the argument slice <- &request.arguments",
+               "ok" if ok2 else "violated", "derives from %s" % describe(p, tp[args_idx - 1]), c.span, fn=p.path)
+        if lib_idx and func_idx:
+            ok0 = tp[lib_idx[0] - 1] == {(("arg", 2), ("destination", "@Library", "lib_name"))}
+            ok1 = tp[func_idx[0] - 1] == {(("arg", 2), ("destination", "@Library", "func_name"))}
+            rep.ob("C19.destination", "process_jump_request: lib/func names <- request.destination.Library",
+                   "ok" if ok0 and ok1 else "violated", "lib<-%s func<-%s" % (describe(p, tp[lib_idx[0] - 1]), describe(p, tp[func_idx[0] - 1])), c.span, fn=p.path)
+        o = rules.origins(p, 0, transparent=PASS | {"anyhow::Context::context", "anyhow::Context::with_context"})
+        rep.ob("C19.result-pass-through", "process_jump_request: Library arm returns the call's result",
+               "ok" if ("call", c.bb) in o else "violated", "", c.span, fn=p.path)
+    callers = F.callers_of("bytecode::interpreter::Program::process_library_jump_request")
+    okc = {x[0].path for x in callers} == {p.path}
+    rep.ob("C19.callers", "process_library_jump_request is called only from process_jump_request", "ok" if okc else "violated",
+           "callers=%s" % sorted({x[0].path for x in callers}), p.span, fn=p.path)
 
     # ---- (d) Function::run, JumpRequest arm --------------------------------------
     r = need(F, "bytecode::function::Function::run")
